@@ -17,7 +17,7 @@ func init() {
 		Decided: "the inductive invariant of the reorder state machine and the per-step facts that imply in-order delivery by induction: (b) at every return of the buffer's Write nothing deliverable stays parked (heap empty or its minimum is not the owed sequence number); " +
 			"(c) a payload is appended to the pipe only from the frame whose Seq equals the owed number, each append is followed by exactly one +1 before the function returns and the counter has no other writer; (d) the heap is a min-heap on Seq with standard Push/Pop/Swap; " +
 			"(e) frames below the owed number are rejected before being parked and parked frames are private copies; (f) the close verdict is returned only for the in-turn frame with the closing flag.",
-		NotDecided: "the delivered bytes as values; unbounded memory of the heap; the pipe's own behaviour (C03); sequence-number wrap-around at 2^64.",
+		NotDecided:  "the delivered bytes as values; unbounded memory of the heap; the pipe's own behaviour (C03); sequence-number wrap-around at 2^64.",
 		Assumptions: []string{"container/heap maintains the min-heap given Less/Swap/Push/Pop contracts", "recvM serialises Write (checked by C01.R2/C12)"},
 	})
 }
